@@ -16,6 +16,11 @@ CHECKS = {
    note='Same fakes as C01; wait() announcements for the dict backend are injected by the driver.',
    technique='stateless deviation-bounded model checking of the real queue on a virtual event loop with online monitors',
    design='5/C03'),
+ 'C04': dict(level='fault_enumeration', engine='E3-crash',
+   text='Every well-formed history of <= 4 (quick) / 5 (thorough) storage operations over two messages {write, increment_attempts, set_timestamp, set_recipients_delivered, remove} is run on the real DiskStorage over an in-memory file system that logs every mutating effect (temp-file creation, each 48-byte chunk write, rename, unlink); EVERY prefix of that effect log is a crash state.  For each one a fresh DiskStorage must load() without raising, list every message whose write had returned and whose remove had not started, return sender/content/outstanding recipients/attempt count consistent with the completed and the single in-progress operation, and a fresh Queue started over it must attempt it.  Thorough adds pairs of operations overlapping in time (aio completions interleaved, <= 2 deviations).  Histories are replayed on the real file system with the real pyaio and compared (traces_validated_against_impl).',
+   note='Process death, not power loss (the kernel keeps completed writes), so crash states are exactly the prefixes of the effect log; rename/unlink atomic.',
+   technique='exhaustive crash-point enumeration over an in-memory FS effect log with recovery checked against a reference store; conformance replay on the real FS',
+   design='5/C04'),
  'C05': dict(level='exploration', engine='E2-stategraph',
    text='Exhaustive over every message over {., CR, LF, a} up to length 6 (quick) / 8 (thorough), every split into sender parts, five pipelined suffixes, every recv_buffer/socket division and ALL segmentations (explicit state graph of the real DataReader fed through the real IO.raw_recv). Inside these bounds the property is decided, not sampled.',
    note='Bytes outside the alphabet are assumed to behave like "a" (one 8-bit symbol added in thorough); max_size=None (size limit is C09). "Randomly beyond the bound" is not done (sampling is outside this family).',
